@@ -62,17 +62,23 @@ def g_ext(rng, size_len, short):
     return rng.choice([b";a", b";x=y", b";name=value", b";name=\"quoted value\";other=1", b"; ext with spaces", b";0123456789abcdef"])
 
 
-def enc_chunked(rng, body, short_ext, sizes=None):
-    """(wire bytes, wire bytes up to and including the last-chunk line, trailer present)"""
+def enc_chunked(rng, body, short_ext, sizes=None, lines=None):
+    """(wire bytes, wire bytes up to and including the last-chunk line); the size lines go to `lines` as (line, value)"""
     out = b""
     pos = 0
     while pos < len(body):
         n = rng.randint(1, min(40, len(body) - pos)) if sizes is None else min(sizes, len(body) - pos)
         sz = g_size(rng, n)
-        out += sz + g_ext(rng, len(sz), short_ext) + b"\r\n" + body[pos:pos + n] + b"\r\n"
+        line = sz + g_ext(rng, len(sz), short_ext) + b"\r\n"
+        if lines is not None:
+            lines.append((line, n))
+        out += line + body[pos:pos + n] + b"\r\n"
         pos += n
     last = rng.choice([b"0", b"0", b"0", b"00", b"000"])
-    out += last + g_ext(rng, len(last), short_ext) + b"\r\n"
+    line = last + g_ext(rng, len(last), short_ext) + b"\r\n"
+    if lines is not None:
+        lines.append((line, 0))
+    out += line
     mlen = len(out)
     tr = b""
     for _ in range(rng.choice([0, 0, 0, 1, 2])):
@@ -102,13 +108,14 @@ def g_request(rng, ident, with_body=True):
     uri = b"/r%d" % ident
     wire = m + b" " + uri + b" HTTP/1.1\r\n" + b"\r\n".join(hdrs) + b"\r\n\r\n"
     mlen = 0
+    lines = []
     if framing == "chunked":
-        enc, mlen = enc_chunked(rng, body, short_ext=False)
+        enc, mlen = enc_chunked(rng, body, short_ext=False, lines=lines)
         wire += enc
     elif framing == "cl":
         wire += body
         mlen = len(body)
-    return wire, {"uri": uri, "method": m, "body": body, "framing": framing, "mlen": mlen}
+    return wire, {"uri": uri, "method": m, "body": body, "framing": framing, "mlen": mlen, "lines": lines}
 
 
 def g_response(rng, ident, may_close=False):
@@ -133,13 +140,14 @@ def g_response(rng, ident, may_close=False):
     rng.shuffle(hdrs)
     wire = proto + b" %d " % status + rng.choice([b"OK", b"Not Found", b"Whatever"]) + b"\r\n" + b"\r\n".join(hdrs) + b"\r\n\r\n"
     mlen = 0
+    lines = []
     if framing == "chunked":
-        enc, mlen = enc_chunked(rng, body, short_ext=True)
+        enc, mlen = enc_chunked(rng, body, short_ext=(rng.random() < 0.93), lines=lines)
         wire += enc
     elif framing in ("cl", "close"):
         wire += body
         mlen = len(body)
-    return wire, {"status": status, "body": body, "framing": framing, "mlen": mlen}
+    return wire, {"status": status, "body": body, "framing": framing, "mlen": mlen, "lines": lines}
 
 
 def deliveries(rng, stream, op, all_cuts_upto, multi=2):
@@ -224,6 +232,38 @@ def gen_boundary(rng):
             # response side: an invalid length falls back to a close-delimited body (malformed input: only accounting is checked)
             out.append((sconnp.case(["O", "Q" + gq.hex(), "S" + rs.hex()] + ["S" + p.hex() for p in pieces] + ["C"]), ("res", want, len(line) + len(tail) if want is not None else None)))
     return out
+
+
+def premise_table(ctx, exchanges):
+    """the EXTRACTED premises of the chunked theorems (Spec/SBody.v) evaluated on every chunk-size line the generator used:
+    {line: (is a line, request-side value, response-side value, bd_res_line_ok)}"""
+    lines = set()
+    for _, t in exchanges:
+        for m in t["req"] + (t["res"] or []):
+            for l, _ in m.get("lines", []):
+                lines.add(l)
+    lines = sorted(lines)
+    out = sconnp.run_model_only(ctx, ["c06prem\t%s" % l.hex() for l in lines], tag="c06prem") if lines else []
+    tab = {}
+    for l, o in zip(lines, out):
+        kv = dict(x.split("=") for x in o.split())
+        tab[l] = (kv.get("line") == "1", int(kv.get("rq", "-1")), int(kv.get("rs", "-1")), kv.get("resok") == "1")
+    return tab
+
+
+def in_premises(truth, tab):
+    """every size line of the exchange satisfies the premises of C06_chunked_decode_encode(_res)_partial"""
+    for m in truth["req"]:
+        for l, n in m.get("lines", []):
+            ok = tab.get(l)
+            if not ok or not ok[0] or ok[1] != n:
+                return False
+    for m in truth["res"] or []:
+        for l, n in m.get("lines", []):
+            ok = tab.get(l)
+            if not ok or not ok[0] or ok[2] != n or not ok[3]:
+                return False
+    return True
 
 
 # ---------------------------------------------------------------- reading an S-connp output line
@@ -520,13 +560,16 @@ def check(ctx):
     else:
         n_req, n_res, n_mixed, upto, n_gq, n_gs = 90, 90, 700, 160, 2500, 4500
     ex = gen_exchanges(rng, n_req, n_res, n_mixed, upto)
+    ptab = premise_table(ctx, ex)
+    for _, t in ex:
+        t["prem"] = in_premises(t, ptab)
     bd = gen_boundary(rng)
     gen = connp_props.general_cases(ctx, n_gq, n_gs, with_requests=False)
     cases = [c for c, _ in ex] + [c for c, _ in bd] + gen
     impl, model, verdicts, traces, crash = connp_props.correspond_and_oracle(ctx, cases)
     n_ex, n_bd = len(ex), len(bd)
     # (i) implementation vs model: the exchanges are inside the premises of the theorems, the rest is outside
-    inside = lambda i: i < n_ex and not ex[i][1].get("f1")
+    inside = lambda i: i < n_ex and not ex[i][1].get("f1") and ex[i][1].get("prem")
     connp_props.report_mismatches(ctx, cases, impl, model, crash, in_domain=inside,
                                   theorem="Properties_C06.v (C06_identity_body, C06_chunked_decode_encode_partial, C06_close_delimited, C06_accounting)")
     # (ii) ground-truth oracle on the implementation's output
@@ -542,6 +585,11 @@ def check(ctx):
             truth = ex[i][1]
             if truth.get("f1"):
                 classes["exchange-f1-hazard"] = classes.get("exchange-f1-hazard", 0) + 1
+                continue
+            if not truth.get("prem"):
+                # outside the extracted premises (response size line on which the look-ahead can fire: K1 territory);
+                # correspondence still compares model and library on it
+                classes["exchange-outside-premises"] = classes.get("exchange-outside-premises", 0) + 1
                 continue
             errs = exchange_errors(o, truth)
             classes["exchange"] += 1
@@ -611,7 +659,7 @@ def _truth_json(t):
         return {"side": t[0], "want": t[1].hex() if t[1] is not None else None, "mlen": t[2]}
 
     def j(m):
-        return {k: (v.hex() if isinstance(v, bytes) else v) for k, v in m.items()}
+        return {k: (v.hex() if isinstance(v, bytes) else v) for k, v in m.items() if k != "lines"}
     return {"req": [j(m) for m in t["req"]], "res": [j(m) for m in (t["res"] or [])], "f1": bool(t.get("f1"))}
 
 
